@@ -48,6 +48,9 @@ def check_C09(run):
                                {"internal": list(inv.internal)}, i))
             continue
         needed, cached, err = o.model_plan()
+        if err == "duplicate-dependency" and o.started_tasks():
+            V.append(Violation("C09", "tasks-executed-although-the-definitions-must-be-refused",
+                               {"started": o.started_tasks()[:4]}, i))
         if err or st.op.get("flags", {}).get("check"):
             continue
         if inv.exit_hang:
@@ -184,8 +187,10 @@ def check_C02(run):
         if inv.killed or inv.deadlock is not None:
             continue
         o = RunObs(run.scn, st)
-        dup = run.scn.get("dup_dep")
-        if dup is not None and st.op["target"] in tasks and dup in M.closure(tasks, st.op["target"]):
+        dups = [t for t in (M.closure(tasks, st.op["target"]) if st.op["target"] in tasks else [])
+                if len(set(tasks[t]["deps"])) < len(tasks[t]["deps"])]
+        dup = dups[0] if dups else None
+        if dup is not None:
             # a needed task lists one dependency twice: nothing may run
             if o.started_tasks():
                 V.append(Violation("C02", "task-executed-although-a-needed-task-lists-a-dependency-twice",
@@ -867,7 +872,8 @@ def durable_violations(scn, op, git, before, after, trace, root, arch_path=None)
                 probs.append(("version-recorded-for-execution-that-did-not-exit-0", {"row": list(r)}))
                 continue
             execno = int(names[0].rsplit("#", 1)[1])
-            for what, det in I.check_version_dir(scn, op, r[0], r[1], tree_a, root, execno):
+            bg_here = any(e[0] == "bgspawn" and e[1] == names[0] + "~bg" for e in trace)
+            for what, det in I.check_version_dir(scn, op, r[0], r[1], tree_a, root, execno, with_bg=bg_here):
                 probs.append((what, det))
             if r[2] != exp_commit or r[3] != exp_dirty:
                 probs.append(("version-recorded-with-wrong-commit-or-dirty-flag",
@@ -1145,7 +1151,8 @@ def check_C10(run):
             how = exits.get(name)
             if how is None or how[0] not in ("exit", "sig"):
                 continue
-            exp_out, exp_err = I.expected_streams(st.op, t, sp["execno"])
+            bg_here = any(e[0] == "bgspawn" and e[1] == name + "~bg" for e in inv.trace)
+            exp_out, exp_err = I.expected_streams(st.op, t, sp["execno"], with_bg=bg_here)
             rel = os.path.relpath(sp["env"]["COND_OUT"], os.path.join(root, "cond-out"))
             mode = "teed" if sp["io"]["out"] == "pipe" else ("logged" if sp["io"]["out"] == "file" else sp["io"]["out"])
             for fname, data in (("stdout.log", exp_out), ("stderr.log", exp_err)):
